@@ -80,7 +80,10 @@ impl<T: ObjectType> ContainerType for QueryRoot<T> {
                 ))
                 .await?;
                 return Ok(Some(Value::List(res)));
-            } else if ctx.item.node.name.node == "_service" {
+            } else if ctx.item.node.name.node == "_service"
+                && ctx.schema_env.registry.introspection_mode != IntrospectionMode::Disabled
+                && ctx.query_env.introspection_mode != IntrospectionMode::Disabled
+            {
                 let mut ctx_obj = ctx.with_selection_set(&ctx.item.node.selection_set);
                 ctx_obj.is_for_introspection = true;
                 return OutputType::resolve(
